@@ -167,6 +167,7 @@ type SignedOpts struct {
 	OmitDelta             bool
 	RequestDelta          map[string]interface{}
 	FailPatch             map[string]interface{} // the (valid) patch that fails to apply when DeltaStatus is DeltaFails
+	DeltaCode, RevealCode uint64                 // multihash algorithms of the delta hash / reveal value (default: the universe's)
 }
 
 func deltaFor(status string, next string, patches []interface{}, failWith map[string]interface{}) (map[string]interface{}, []interface{}) {
@@ -190,7 +191,8 @@ func (u *Universe) MkSigned(label, op string, reveal *ref.Key, nextR, nextU stri
 	}
 	s := &ref.SignedSpec{Op: op, Code: u.Code, Suffix: u.Suffix, RevealKey: reveal, SignedKey: o.SignedKey, SigningKey: o.SigningKey,
 		RecoveryCommitment: nextR, AnchorFrom: o.From, AnchorUntil: o.Until, SignedSuffix: o.SignedSuffix,
-		TamperSignature: o.Tamper, AlterPayload: o.Alter, AnchorOrigin: o.Origin, OmitDelta: o.OmitDelta, DeltaInRequest: o.RequestDelta}
+		TamperSignature: o.Tamper, AlterPayload: o.Alter, AnchorOrigin: o.Origin, OmitDelta: o.OmitDelta, DeltaInRequest: o.RequestDelta,
+		DeltaCode: o.DeltaCode, RevealCode: o.RevealCode}
 	var usedPatches []interface{}
 	if op != "deactivate" {
 		s.Delta, usedPatches = deltaFor(status, nextU, patches, o.FailPatch)
@@ -206,7 +208,11 @@ func (u *Universe) MkSigned(label, op string, reveal *ref.Key, nextR, nextU stri
 	if signing == nil {
 		signing = reveal
 	}
-	d := &ref.Op{Label: label, Type: op, Request: ref.MustJCS(s.Request()), Consumes: reveal.Commitment(u.Code),
+	rc := u.Code
+	if o.RevealCode != 0 {
+		rc = o.RevealCode
+	}
+	d := &ref.Op{Label: label, Type: op, Request: ref.MustJCS(s.Request()), Consumes: reveal.Commitment(rc),
 		NextRecovery: nextR, NextUpdate: nextU, DeltaStatus: status, Patches: usedPatches, From: o.From, Until: o.Until,
 		AnchorOrigin: o.Origin, MaxDelta: u.MaxDelta}
 	d.Parses = signed == reveal && (op != "deactivate" || o.SignedSuffix == "" || o.SignedSuffix == u.Suffix) && !o.OmitDelta
